@@ -330,20 +330,40 @@ class Gen:
             self.count("no-body")
             self.tag("-")
 
-    def decl(self, depth):
-        c = self.r.below(11)
+    def ann_body(self):
+        self.w("["); self.tag("{")
+        for _ in range(self.r.below(5)):
+            self.w(self.r.choice(NAMES + ["12", "(", ")", ",", "'s t'", "[", "=", "class", "proc"]))
+        self.tag("}"); self.w("]")
+
+    def ann(self):
+        if self.r.chance(1, 4):
+            self.count("annotation")
+            self.tag("+"); self.ann_body()
+        else:
+            self.tag("-")
+
+    def decl(self, depth, after_ann=False):
+        """returns whether the declaration is an annotation on its own (what follows must not take it)"""
+        c = self.r.below(12)
+        if after_ann and c in (6, 7, 8, 10):       # field, class, module, type would take the annotation
+            c = self.r.choice([0, 3, 5, 9, 11])
+        if c == 11:
+            self.count("annotation-alone")
+            self.tag("DA"); self.ann_body()
+            return True
         if c == 10:
             self.count("type-decl")
-            self.tag("DT"); self.typedecl()
-            return
+            self.tag("DT"); self.ann(); self.typedecl()
+            return False
         if c == 8:
             self.count("module")
-            self.tag("DM"); self.w("module"); self.w("aMod")
-            return
+            self.tag("DM"); self.ann(); self.w("module"); self.w("aMod")
+            return False
         if c == 9:
             self.count("uses")
             self.tag("DU"); self.uses()
-            return
+            return False
         if c <= 2:
             self.count("proc")
             self.tag("DP"); self.w("proc"); self.mname(); self.params(); self.body(self.mods(), depth, "endproc")
@@ -356,7 +376,7 @@ class Gen:
             self.tag("DC"); self.const()
         elif c == 6:
             self.count("field")
-            self.tag("DV")
+            self.tag("DV"); self.ann()
             if self.r.chance(1, 5):
                 self.count("memory")
                 self.tag("+"); self.w("memory")
@@ -371,14 +391,17 @@ class Gen:
             self.absolute()
         else:
             self.count("class")
+            self.tag("DK"); self.ann()
             if self.r.chance(1, 2):
-                self.tag("DK"); self.tag("+"); self.w("class"); self.w("aFoo"); self.w("("); self.w("aBase"); self.w(")")
+                self.tag("+"); self.w("class"); self.w("aFoo"); self.w("("); self.w("aBase"); self.w(")")
             else:
-                self.tag("DK"); self.tag("-"); self.w("class"); self.w("aFoo")
+                self.tag("-"); self.w("class"); self.w("aFoo")
+        return False
 
     def program(self, depth):
+        after = False
         for _ in range(self.r.below(5)):
-            self.decl(depth)
+            after = self.decl(depth, after)
 
 
 def layout(r, words):
